@@ -252,6 +252,8 @@ class QuadraticModel(QuadraticViewsMixin):
 
     def __isub__(self, other: typing.Union['QuadraticModel', Bias]) -> 'QuadraticModel':
         if isinstance(other, QuadraticModel):
+            if other is self:
+                other = self.copy()  # scale(-1) below would flip the subtrahend too
             self.scale(-1)
             self.update(other)
             self.scale(-1)
